@@ -126,7 +126,10 @@ theorem act_steps : ∀ (s : Shape), okShape A s = true → ∀ (cs : List Call)
       have hstep : ∃ em : List Call, leavesAbs A (.tfr ch) (step (.tfr ch) (own, inner) c) = leavesAbs A ch (em.foldl (step ch) inner)
           ∧ ∀ a, em.foldl (fun a c => A.act c a) a = A.act c a := by
         cases c with
-        | add k t x => exact ⟨tfrBlock own k t x, rfl, tfrBlock_act A hsn own k t x⟩
+        | add k t x =>
+          refine ⟨tfrBlock own k t x ++ tfrStops own k, rfl, fun a => ?_⟩
+          rw [List.foldl_append, tfrBlock_act A hsn own k t x,
+            foldl_neutral A _ (fun c hc => by rw [mem_tfrStops own k c hc]; rfl)]
         | startTestRun => exact ⟨[.startTestRun], rfl, fun _ => rfl⟩
         | stopTestRun => exact ⟨[.stopTestRun], rfl, fun _ => rfl⟩
         | stop => exact ⟨[.stop], rfl, fun _ => rfl⟩
